@@ -115,6 +115,15 @@ var evalExprEnv map[string]int64
 func evalBool(info *types.Info, e ast.Expr, env map[types.Object]int64) (bool, bool) {
 	e = unparen(e)
 	switch x := e.(type) {
+	case *ast.Ident:
+		if o := info.Uses[x]; o != nil {
+			if v, ok := env[o]; ok {
+				return v != 0, true
+			}
+		}
+		if v, ok := constBool(info, x); ok {
+			return v, true
+		}
 	case *ast.UnaryExpr:
 		if x.Op == token.NOT {
 			v, ok := evalBool(info, x.X, env)
@@ -418,10 +427,20 @@ func printable(ch int64) string {
 // character ch: len(P[k:]) for the padding `append(out, P[k:]...)` with P a
 // constant string, plus the digits strconv.AppendUint(out, uint64(r), 16) writes.
 func jsonUEscapeDigits(info *types.Info, cc *ast.CaseClause, r types.Object, ch int64) (int64, bool) {
+	return escapeDigits(info, cc.Body, r, ch)
+}
+
+// escapeDigits: number of hex digits the statements emit for character ch:
+// len(P[k:]) for a padding `append(out, P[k:]...)` with P a constant string,
+// plus the digits strconv.AppendUint(out, uint64(r), 16) writes.
+func escapeDigits(info *types.Info, stmts []ast.Stmt, r types.Object, ch int64) (int64, bool) {
 	pad, okPad := int64(0), false
 	base16 := false
-	for _, s := range cc.Body {
+	for _, s := range stmts {
 		walk(s, func(n ast.Node) bool {
+			if _, isIf := n.(*ast.IfStmt); isIf {
+				return false // nested alternatives are evaluated by the caller
+			}
 			call, ok := n.(*ast.CallExpr)
 			if !ok {
 				return true
